@@ -146,7 +146,7 @@ def step (w : World) : PolyOp → World
     else if i = j then w.set i (apply2 o hs its { x := w i, y := w i, al := true }).x
     else
       let r := apply2 o hs its { x := w i, y := w j, al := false }
-      (w.set i r.x).set j r.y
+      (w.set i r.x).set j r.gy      -- (`r.gy` is `r.y`: no method changes the identity of its operands)
 
 end PolyProto
 
